@@ -120,6 +120,7 @@ func (e *Engine) externResults(st *State, callee *ssa.Function, args []Value, pr
 	seq0 := e.allocSeq
 	out := e.havocResults(st, callee.Signature, prefix)
 	if len(e.borrowed) == 0 {
+		e.pureExternResults(st, callee, args, out, seq0)
 		return out
 	}
 	var argRegions []*Term
@@ -168,6 +169,101 @@ func (e *Engine) externResults(st *State, callee *ssa.Function, args []Value, pr
 	}
 	e.assumedExterns["results of abstracted external functions are nil, newly allocated, or memory reachable from their slice/string arguments (used for the vBorrowed checks)"] = true
 	return out
+}
+
+// valueLike: a parameter type through which a callee cannot reach heap objects of the caller other
+// than the bytes of slices / strings passed directly (scalars, strings, slices and arrays of
+// scalars, the value types of net/netip).
+func valueLike(t types.Type) bool {
+	if nt, ok := t.(*types.Named); ok && nt.Obj().Pkg() != nil && nt.Obj().Pkg().Path() == "net/netip" {
+		return true
+	}
+	switch u := t.Underlying().(type) {
+	case *types.Basic:
+		return true
+	case *types.Slice:
+		_, ok := u.Elem().Underlying().(*types.Basic)
+		return ok
+	case *types.Array:
+		return valueLike(u.Elem())
+	case *types.Struct:
+		for i := 0; i < u.NumFields(); i++ {
+			if !valueLike(u.Field(i).Type()) {
+				return false
+			}
+		}
+		return true
+	}
+	return false
+}
+
+// pureExternResults: an abstracted function outside the repository whose parameters are all
+// value-like cannot return a view of memory the verified code allocated itself and did not pass
+// to it: its byte-slice / string results are nil, literals, pre-existing memory, memory it
+// allocates, or (parts of) its own slice / string arguments.
+func (e *Engine) pureExternResults(st *State, callee *ssa.Function, args []Value, out []Value, seq0 uint64) {
+	sig := callee.Signature
+	if sig.Recv() != nil && !valueLike(sig.Recv().Type()) {
+		return
+	}
+	ps := sig.Params()
+	for i := 0; i < ps.Len(); i++ {
+		if !valueLike(ps.At(i).Type()) {
+			return
+		}
+	}
+	var argRegions []*Term
+	off := 0
+	if sig.Recv() != nil {
+		off = 1
+	}
+	for i, a := range args {
+		var t types.Type
+		switch {
+		case off == 1 && i == 0:
+			t = sig.Recv().Type()
+		case i-off < ps.Len():
+			t = ps.At(i - off).Type()
+		default:
+			continue
+		}
+		fl, ok := e.tryFlat(a, t)
+		if !ok {
+			return
+		}
+		for j, l := range leavesOf(t) {
+			if l.kind == LRegion && j < len(fl) {
+				argRegions = append(argRegions, fl[j])
+			}
+		}
+	}
+	res := sig.Results()
+	did := false
+	for i := 0; i < res.Len(); i++ {
+		t := res.At(i).Type()
+		fl, ok := e.tryFlat(out[i], t)
+		if !ok {
+			continue
+		}
+		for j, l := range leavesOf(t) {
+			if l.kind != LRegion || j >= len(fl) || !byteView(l.typ) || fl[j].op != "var" {
+				continue
+			}
+			r := fl[j]
+			// not (allocated by the verified code before the call) unless it is one of the arguments
+			old := And(Eq(regionNibble(r), BVConst(0xF, 4)), BVUle(r, BVConstU(0xF000000000000000+seq0, RegionSort)), BVUlt(BVConstU(0xF000000000000000+callAllocBase, RegionSort), r))
+			alts := []*Term{Not(old)}
+			for _, ar := range argRegions {
+				alts = append(alts, Eq(r, ar))
+			}
+			st.assume(Or(alts...))
+			regionExtern[r.id] = externRegionInfo{seq0: seq0, args: argRegions}
+			did = true
+		}
+	}
+	if did {
+		e.assumedExterns["byte-slice / string results of abstracted external functions with value parameters only are not views of memory the verified code allocated itself, unless passed as an argument"] = true
+	}
 }
 
 // finishCall executes a callee frame inline and merges its return points into st.
@@ -295,7 +391,7 @@ var intrinsicNames = map[string]bool{
 	"vRequires": true, "vEnsures": true, "vAssert": true, "vAssume": true, "vForall": true, "vExists": true,
 	"vSameRegion": true, "vOffset": true, "vModifiesBytes": true, "vModifiesAll": true, "vFresh": true,
 	"vCanary": true, "vAllocs": true, "vUnreachable": true, "vModifiesObj": true, "vNoAlias": true, "vOpaque": true,
-	"vModifiesNothing": true, "vBorrowed": true, "vIsFreshRegion": true, "vModifiesHeap": true, "vStrictLen": true, "vAtEntry": true, "vKeptOrNew": true, "vWireCount": true, "vWireLast": true, "vModifiesWire": true, "vFuel": true, "vModifiesMems": true, "vReveal": true, "vModifiesField": true, "vMapAll": true, "vWireEach": true, "vSpawned": true, "vTrusted": true, "vModifiesElems": true, "vModifiesMap": true, "vFreshMap": true,
+	"vModifiesNothing": true, "vBorrowed": true, "vIsFreshRegion": true, "vModifiesHeap": true, "vStrictLen": true, "vAtEntry": true, "vKeptOrNew": true, "vWireCount": true, "vWireLast": true, "vModifiesWire": true, "vFuel": true, "vModifiesMems": true, "vReveal": true, "vModifiesField": true, "vMapAll": true, "vWireEach": true, "vSpawned": true, "vTrusted": true, "vModifiesElems": true, "vModifiesMap": true, "vFreshMap": true, "vRangeSeen": true,
 }
 
 // intrinsicName: the name of an intrinsic, with generic instantiations mapped to their origin.
@@ -868,6 +964,23 @@ func (e *Engine) intrinsic(fr *Frame, st *State, callee *ssa.Function, args []Va
 	case "vIsFreshRegion":
 		a := args[0].T
 		return []Value{scalar(Eq(regionNibble(a[0]), BVConst(0xF, 4)))}
+	case "vRangeSeen":
+		// loop invariants of a range-over-map loop: the iteration has produced this key already
+		w := e.loopWhere
+		if w == nil {
+			unsup("vRangeSeen outside a loop invariant")
+		}
+		rg := loopMapRange(w.li)
+		if rg == nil {
+			unsup("vRangeSeen in the invariant of a loop that does not range over a map")
+		}
+		it := w.fr.iters[rg]
+		if it == nil || it.seen == "" {
+			unsup("vRangeSeen: unknown iterator")
+		}
+		mt := it.t.Underlying().(*types.Map)
+		keys := e.mapKey(st, mt, it.x.term(), args[0])
+		return []Value{scalar(e.seenRead(st, it, keys))}
 	case "vFreshMap":
 		// the map was created by the target (after the hole was reached): it is none of the maps
 		// that existed before the call
@@ -1587,7 +1700,7 @@ func (e *Engine) frameObligations(fr *Frame, st *State, entry map[string]*Mem, e
 		if !ok {
 			ent = NewBaseMem(name, fin.ksort, fin.sort, "M0."+name)
 		}
-		if fin == ent {
+		if fin == ent || strings.HasPrefix(name, "map:iter.") {
 			continue
 		}
 		covered := false
